@@ -111,7 +111,7 @@ def gen_cases(rng, tier):
             u = rng.choice(inv)
             cases.append({'dm': rng.choice(W.MODES), 'pre': True, 'script': [], 'hist': [],
                           'q': {'k': 'op', 'o': ['div', ['n', n], ['q', amt, u]]}})
-    for i in range(160 if tier == 'quick' else 2500):
+    for i in range(160 if tier == 'quick' else 1800):
         tag = ''.join(rng.choice('abcdefghk') for _ in range(3))
         script, w = RW.gen_world(rng, tag)
         us = list(w.order)
